@@ -37,6 +37,26 @@ var importMap = map[string][2]string{ // path -> {shim path, default local name}
 	"crypto/rand":  {"verif/shim/vcrand", "rand"},
 }
 
+// method calls routed through wrapper functions: "<pkgpath>.<Type>.<Method>" -> {import path, package name, function}
+var intercept = map[string][3]string{
+	"net.UDPConn.ReadMsgUDPAddrPort":      {"verif/vnet/vudp", "vudp", "UDP_ReadMsgUDPAddrPort"},
+	"net.UDPConn.WriteMsgUDPAddrPort":     {"verif/vnet/vudp", "vudp", "UDP_WriteMsgUDPAddrPort"},
+	"net.UDPConn.ReadFromUDPAddrPort":     {"verif/vnet/vudp", "vudp", "UDP_ReadFromUDPAddrPort"},
+	"net.UDPConn.WriteToUDPAddrPort":      {"verif/vnet/vudp", "vudp", "UDP_WriteToUDPAddrPort"},
+	"net.UDPConn.Read":                    {"verif/vnet/vudp", "vudp", "UDP_Read"},
+	"net.UDPConn.Write":                   {"verif/vnet/vudp", "vudp", "UDP_Write"},
+	"net.UDPConn.SetReadDeadline":         {"verif/vnet/vudp", "vudp", "UDP_SetReadDeadline"},
+	"net.UDPConn.SetWriteDeadline":        {"verif/vnet/vudp", "vudp", "UDP_SetWriteDeadline"},
+	"net.UDPConn.SetDeadline":             {"verif/vnet/vudp", "vudp", "UDP_SetDeadline"},
+	"net.UDPConn.Close":                   {"verif/vnet/vudp", "vudp", "UDP_Close"},
+	"net.Resolver.LookupNetIP":            {"verif/vnet/vudp", "vudp", "Resolver_LookupNetIP"},
+	repoMod + "/conn.MmsgRConn.ReadMsgs":  {"verif/vnet/vmmsg", "vmmsg", "MmsgR_ReadMsgs"},
+	repoMod + "/conn.MmsgWConn.WriteMsgs": {"verif/vnet/vmmsg", "vmmsg", "MmsgW_WriteMsgs"},
+}
+
+// method *values* of these would escape interception: loud error
+var interceptTypes = map[string]bool{"net.UDPConn": true}
+
 // packages (relative to the module) that are left untouched
 var skipPkgs = map[string]bool{
 	"logging":  true, // implements zapcore.Clock with real *time.Ticker
@@ -49,16 +69,17 @@ var extraImports = map[string]map[string][2]string{
 }
 
 type fileRewriter struct {
-	fset    *token.FileSet
-	info    *types.Info
-	file    *ast.File
-	relPkg  string
-	needVS  bool
-	counter int
-	errs    []string
-	netHook bool
-	pre     astutil.ApplyFunc
-	post    astutil.ApplyFunc
+	fset         *token.FileSet
+	info         *types.Info
+	file         *ast.File
+	relPkg       string
+	needVS       bool
+	counter      int
+	errs         []string
+	netHook      bool
+	extraImports map[string]bool
+	pre          astutil.ApplyFunc
+	post         astutil.ApplyFunc
 }
 
 func main() {
@@ -338,6 +359,9 @@ func (r *fileRewriter) rewrite(used map[string]map[string]bool, stats map[string
 			r.needVS = true
 			stats["send"]++
 		case *ast.CallExpr:
+			if se, ok := n.Fun.(*ast.SelectorExpr); ok {
+				r.interceptCall(n, se, stats)
+			}
 			if id, ok := n.Fun.(*ast.Ident); ok && len(n.Args) == 1 {
 				if r.isBuiltin(id, "close") {
 					n.Fun = vs("Close")
@@ -369,6 +393,39 @@ func (r *fileRewriter) rewrite(used map[string]map[string]bool, stats map[string
 	}
 	r.pre, r.post = pre, post
 	astutil.Apply(f, pre, post)
+	// Shared-object access points: in the selected packages every statement of a
+	// pointer-receiver method that mentions the receiver is preceded by
+	// vsched.Touch(recv).  Touch is a scheduling point only for objects that a
+	// second thread has touched in the same execution (dynamic sharing
+	// detection), so thread-local objects cost nothing.
+	if touchPkgs[r.relPkg] {
+		for _, d := range f.Decls {
+			fd, ok := d.(*ast.FuncDecl)
+			if !ok || fd.Recv == nil || fd.Body == nil || len(fd.Recv.List) != 1 || len(fd.Recv.List[0].Names) != 1 {
+				continue
+			}
+			if _, ok := fd.Recv.List[0].Type.(*ast.StarExpr); !ok {
+				continue
+			}
+			recv := fd.Recv.List[0].Names[0]
+			if recv.Name == "_" {
+				continue
+			}
+			obj := r.info.Defs[recv]
+			if obj == nil {
+				continue
+			}
+			n := r.insertTouches(fd.Body, recv.Name, obj)
+			if n > 0 {
+				changed = true
+				r.needVS = true
+				stats["touch"] += n
+			}
+		}
+		if r.needVS {
+			astutil.AddImport(r.fset, f, "verif/vsched")
+		}
+	}
 	// Targeted widening: service.(*TCPRelay).handleConn takes netio.Conn instead of
 	// *net.TCPConn (its body only uses netio.Conn methods), so that a harness can
 	// hand the real function an in-memory connection.
@@ -395,6 +452,10 @@ func (r *fileRewriter) rewrite(used map[string]map[string]bool, stats map[string
 		changed = true
 		astutil.AddImport(r.fset, f, "verif/vsched")
 	}
+	for path := range r.extraImports {
+		changed = true
+		astutil.AddImport(r.fset, f, path)
+	}
 	if changed {
 		// Drop comments after the package clause: synthesized nodes have no
 		// positions and the printer could otherwise misplace a comment into
@@ -414,6 +475,134 @@ func (r *fileRewriter) rewrite(used map[string]map[string]bool, stats map[string
 		f.Comments = keep
 	}
 	return changed
+}
+
+var touchPkgs = map[string]bool{"direct": true}
+
+func (r *fileRewriter) mentions(n ast.Node, obj types.Object) bool {
+	found := false
+	ast.Inspect(n, func(x ast.Node) bool {
+		if id, ok := x.(*ast.Ident); ok && r.info.Uses[id] == obj {
+			found = true
+		}
+		return !found
+	})
+	return found
+}
+
+func (r *fileRewriter) insertTouches(b *ast.BlockStmt, name string, obj types.Object) int {
+	count := 0
+	var doList func(list []ast.Stmt) []ast.Stmt
+	var doStmt func(s ast.Stmt)
+	doStmt = func(s ast.Stmt) {
+		switch n := s.(type) {
+		case *ast.BlockStmt:
+			n.List = doList(n.List)
+		case *ast.IfStmt:
+			n.Body.List = doList(n.Body.List)
+			if n.Else != nil {
+				doStmt(n.Else)
+			}
+		case *ast.ForStmt:
+			n.Body.List = doList(n.Body.List)
+		case *ast.RangeStmt:
+			n.Body.List = doList(n.Body.List)
+		case *ast.SwitchStmt:
+			for _, c := range n.Body.List {
+				cc := c.(*ast.CaseClause)
+				cc.Body = doList(cc.Body)
+			}
+		case *ast.TypeSwitchStmt:
+			for _, c := range n.Body.List {
+				cc := c.(*ast.CaseClause)
+				cc.Body = doList(cc.Body)
+			}
+		case *ast.LabeledStmt:
+			doStmt(n.Stmt)
+		}
+	}
+	doList = func(list []ast.Stmt) []ast.Stmt {
+		var out []ast.Stmt
+		for _, s := range list {
+			if _, isDecl := s.(*ast.DeclStmt); !isDecl && r.mentions(s, obj) {
+				out = append(out, &ast.ExprStmt{X: call(vs("Touch"), ast.NewIdent(name))})
+				count++
+			}
+			doStmt(s)
+			out = append(out, s)
+		}
+		return out
+	}
+	b.List = doList(b.List)
+	return count
+}
+
+func derefT(t types.Type) types.Type {
+	if p, ok := t.(*types.Pointer); ok {
+		return p.Elem()
+	}
+	return t
+}
+
+// interceptCall rewrites x.Method(args) into wrapper(x, args) for the methods in
+// the intercept table, following embedded fields explicitly.
+func (r *fileRewriter) interceptCall(n *ast.CallExpr, se *ast.SelectorExpr, stats map[string]int) {
+	sel := r.info.Selections[se]
+	if sel == nil || sel.Kind() != types.MethodVal {
+		return
+	}
+	fn, ok := sel.Obj().(*types.Func)
+	if !ok {
+		return
+	}
+	// walk the embedding path from the static receiver type down to the type that
+	// declares the method; the first type on the path with an intercept entry wins
+	keyOf := func(t types.Type) (string, bool) {
+		named, ok := derefT(t).(*types.Named)
+		if !ok || named.Obj().Pkg() == nil {
+			return "", false
+		}
+		return named.Obj().Pkg().Path() + "." + named.Obj().Name() + "." + fn.Name(), true
+	}
+	x := se.X
+	t := sel.Recv()
+	idx := sel.Index()
+	var target [3]string
+	found := false
+	for step := 0; ; step++ {
+		if k, ok := keyOf(t); ok {
+			if tg, ok := intercept[k]; ok {
+				target, found = tg, true
+				break
+			}
+		}
+		if step >= len(idx)-1 {
+			break
+		}
+		st, ok := derefT(t).Underlying().(*types.Struct)
+		if !ok {
+			return
+		}
+		f := st.Field(idx[step])
+		x = &ast.SelectorExpr{X: x, Sel: ast.NewIdent(f.Name())}
+		t = f.Type()
+	}
+	if !found {
+		return
+	}
+	if target[1] == "vmmsg" && r.relPkg == "conn" {
+		return // vmmsg imports package conn
+	}
+	if _, have := t.(*types.Pointer); !have {
+		x = &ast.UnaryExpr{Op: token.AND, X: x}
+	}
+	n.Fun = &ast.SelectorExpr{X: ast.NewIdent(target[1]), Sel: ast.NewIdent(target[2])}
+	n.Args = append([]ast.Expr{x}, n.Args...)
+	if r.extraImports == nil {
+		r.extraImports = map[string]bool{}
+	}
+	r.extraImports[target[0]] = true
+	stats["intercept"]++
 }
 
 func (r *fileRewriter) apply(n ast.Node) ast.Node {
